@@ -796,6 +796,23 @@ def witnesses(ctx):
                           "(compile_fail doc-tests, each paired with a compiling twin)")
     wdir = build._sync_lock(os.path.join(build.VERIF, "witness"))
     import tempfile
+    import shutil
+    # the privacy witness has to name StrRead's private field: under the name it has on this tree (rules/rename.py
+    # records what the reviewed tree's `delegate` is called here)
+    real = _real_field_name(ctx, "parse::read::StrRead", "delegate")
+    extra_tmp = None
+    if real != "delegate":
+        if os.path.realpath(wdir).startswith(os.path.realpath(os.path.join(build.VERIF, "witness"))):
+            extra_tmp = tempfile.mkdtemp(prefix="harness-", dir=build.WORK)
+            dst = os.path.join(extra_tmp, "witness")
+            shutil.copytree(wdir, dst, ignore=shutil.ignore_patterns("target"))
+            wdir = dst
+        lp = os.path.join(wdir, "src", "lib.rs")
+        with open(lp) as fh:
+            txt = fh.read()
+        with open(lp, "w") as fh:
+            fh.write(txt.replace("StrRead { delegate: d }", "StrRead { %s: d }" % real))
+        r.note("StrRead's private field is called `%s` on this tree" % real)
     tgt = tempfile.mkdtemp(prefix="tgt-w-", dir=build.WORK)
     try:
         env = dict(os.environ, CARGO_NET_OFFLINE="true", CARGO_TARGET_DIR=tgt)
@@ -811,5 +828,24 @@ def witnesses(ctx):
             r.violation("witness", "witness-failed",
                         "a compile_fail witness compiled, or a compiling twin failed: %s\n%s" % (failed, out[-1500:]))
     finally:
-        import shutil
         shutil.rmtree(tgt, ignore_errors=True)
+        if extra_tmp:
+            shutil.rmtree(extra_tmp, ignore_errors=True)
+
+
+def _real_field_name(ctx, adt, reviewed):
+    """What the field the reviewed tree calls `reviewed` is called on the tree under analysis."""
+    import json
+    p = os.path.join(ctx.db.dir, "renames.json") if ctx.db is not None else None
+    if not p or not os.path.exists(p):
+        return reviewed
+    with open(p) as fh:
+        plans = json.load(fh)
+    for plan in plans.values():
+        for new, old in (plan.get("members", {}).get(adt, {}).get("fields", {}) or {}).items():
+            if old == reviewed:
+                return new
+        for new, old in (plan.get("tokens") or {}).items():
+            if old == reviewed and any(("field of %s: `%s`" % (adt, new)) in n for n in plan.get("notes", [])):
+                return new
+    return reviewed
